@@ -40,7 +40,7 @@ type SpecFun struct {
 	Trigger bool
 	Rec     bool     // recursive: emitted as define-fun-rec with the heaps it reads as explicit parameters
 	RecKeys []string // heap keys read by the body (computed on first use)
-	Exec    string // Go expression implementing an uninterpreted spec function at run time (replay only)
+	Exec    string   // Go expression implementing an uninterpreted spec function at run time (replay only)
 }
 
 type Axiom struct {
@@ -48,28 +48,31 @@ type Axiom struct {
 	E     Expr
 	Text  string
 	Pkg   string
-	Lemma bool     // proved from the axioms and lemmas declared before it
+	Lemma bool // proved from the axioms and lemmas declared before it
 	Props []string
 }
 
 type FuncContract struct {
-	Pkg      string // package path
-	Name     string // e.g. CleanPath, (*recorder).Write, Router.parseRoute, LoggerWithHandler$1$1
-	Props    []string
-	Clauses  []*Clause
-	Modifies []string
-	Extern   bool // contract assumed, body not verified
-	Partial  bool // partial correctness only: safety obligations not claimed
-	Pure     bool // callable from specs as an uninterpreted function
-	Inline   bool
-	Effects  []string
-	Behavs   []string
-	File     string
-	Line     int
-	Trusted  string // reason why extern
-	NoPanic  bool
-	Ghosts   []*Clause // ghost statements anchored in the body
-	GhostSets    [][3]string // anchor (entry|return), ghost variable, expression
+	Pkg          string // package path
+	Name         string // e.g. CleanPath, (*recorder).Write, Router.parseRoute, LoggerWithHandler$1$1
+	Props        []string
+	Clauses      []*Clause
+	Modifies     []string
+	Extern       bool // contract assumed, body not verified
+	Partial      bool // partial correctness only: safety obligations not claimed
+	Pure         bool // callable from specs as an uninterpreted function
+	Inline       bool
+	Effects      []string
+	Behavs       []string
+	File         string
+	Line         int
+	Trusted      string // reason why extern
+	NoPanic      bool
+	NoAlloc      bool
+	NoAllocProps []string
+	Ghosts       []*Clause   // ghost statements anchored in the body
+	GhostSets    [][3]string // anchor (entry|return|call NAME#k|after NAME#k), ghost variable, expression
+	GhostSetTags []string    // property tags of each ghost-set ("" = the function's)
 	SinceGhost   string      // modifies-since G : heaps  -- objects with reference >= old(G) may be written in these heaps
 	SinceHeaps   []string
 	ParamNames   []string    // explicit parameter names (function-value and interface contracts whose signature has none)
@@ -85,17 +88,17 @@ type GhostVar struct {
 }
 
 type Contracts struct {
-	Funcs   map[string]*FuncContract // key pkgpath + "." + name
-	Specs   map[string]*SpecFun      // key: name (global namespace)
-	Axioms  []*Axiom
-	Ghosts  map[string]*GhostVar
-	Order   []string
-	Files   []string
-	Consts  map[string]string
-	Types   map[string]string // spec type aliases: name -> Go type expression
-	Audits  []Audit
+	Funcs     map[string]*FuncContract // key pkgpath + "." + name
+	Specs     map[string]*SpecFun      // key: name (global namespace)
+	Axioms    []*Axiom
+	Ghosts    map[string]*GhostVar
+	Order     []string
+	Files     []string
+	Consts    map[string]string
+	Types     map[string]string // spec type aliases: name -> Go type expression
+	Audits    []Audit
 	NonGlobal []string
-	Effects []EffectDecl
+	Effects   []EffectDecl
 }
 
 type Audit struct {
@@ -110,11 +113,12 @@ type EffectDecl struct {
 	Func   string
 	Effect string
 	Props  []string
+	Except []string // callees not descended into (assumed to have the effect)
 	Line   int
 	File   string
 }
 
-var keywordRe = regexp.MustCompile(`^(ghost-set|modifies-since|params|implements|audit|nonglobal|type|exec|replay-input|replay-setup|pred|fun|axiom|func|extern|requires|ensures|modifies|loop|behavior|props|partial|pure|inline|ghost|assert-at|assume-at|effects|trusted|nopanic|panics-when|ensures-on-panic|package|const|lemma)\b`)
+var keywordRe = regexp.MustCompile(`^(ghost-set|modifies-since|params|implements|audit|nonglobal|type|exec|replay-input|replay-setup|pred|fun|axiom|func|extern|requires|ensures|modifies|loop|behavior|props|partial|pure|inline|ghost|assert-at|assume-at|effects|trusted|nopanic|noalloc|panics-when|ensures-on-panic|package|const|lemma)\b`)
 
 type rawLine struct {
 	text string
@@ -317,8 +321,25 @@ func (cs *Contracts) loadFile(path string) error {
 			cur.Inline = true
 		case "nopanic":
 			cur.NoPanic = true
+		case "noalloc":
+			// noalloc [@tags]: the function allocates nothing (callers keep nextref; checked at every return)
+			if cur == nil {
+				return fail(fmt.Errorf("noalloc outside func"))
+			}
+			cur.NoAlloc = true
+			if strings.HasPrefix(rest, "@") {
+				cur.NoAllocProps = strings.Split(strings.TrimSpace(rest[1:]), ",")
+			}
 		case "ghost-set":
 			// ghost-set entry|return : name = expr
+			gsTags := ""
+			if strings.HasPrefix(rest, "@") {
+				k := strings.IndexAny(rest, " \t")
+				if k < 0 {
+					return fail(fmt.Errorf("ghost-set needs 'anchor : name = expr'"))
+				}
+				gsTags, rest = rest[1:k], strings.TrimSpace(rest[k:])
+			}
 			parts := strings.SplitN(rest, ":", 2)
 			if cur == nil || len(parts) != 2 {
 				return fail(fmt.Errorf("ghost-set needs 'anchor : name = expr'"))
@@ -328,6 +349,7 @@ func (cs *Contracts) loadFile(path string) error {
 				return fail(fmt.Errorf("ghost-set needs 'name = expr'"))
 			}
 			cur.GhostSets = append(cur.GhostSets, [3]string{strings.TrimSpace(parts[0]), strings.TrimSpace(as[0]), strings.TrimSpace(as[1])})
+			cur.GhostSetTags = append(cur.GhostSetTags, gsTags)
 		case "modifies-since":
 			parts := strings.SplitN(rest, ":", 2)
 			if cur == nil || len(parts) != 2 {
@@ -368,13 +390,17 @@ func (cs *Contracts) loadFile(path string) error {
 			if strings.Contains(rest, ":") {
 				parts := strings.SplitN(rest, ":", 2)
 				effs := parts[1]
-				var props []string
+				var props, except []string
 				if k := strings.Index(effs, " props "); k >= 0 {
 					props = splitList(effs[k+7:])
 					effs = effs[:k]
 				}
+				if k := strings.Index(effs, " except "); k >= 0 {
+					except = splitList(effs[k+8:])
+					effs = effs[:k]
+				}
 				for _, e := range splitList(effs) {
-					cs.Effects = append(cs.Effects, EffectDecl{Pkg: pkg, Func: strings.TrimSpace(parts[0]), Effect: e, Props: props, Line: st.line, File: st.file})
+					cs.Effects = append(cs.Effects, EffectDecl{Pkg: pkg, Func: strings.TrimSpace(parts[0]), Effect: e, Props: props, Except: except, Line: st.line, File: st.file})
 				}
 			} else if cur != nil {
 				cur.Effects = append(cur.Effects, splitList(rest)...)
